@@ -4,6 +4,7 @@ from rules import regex_rules
 
 def run(m, tier):
     results = regex_rules.c15_rules(m)
+    results.append(regex_rules.c15_flow_rule(m))
     expl = ("Decides structural clauses of C15: the three sentinel regex literals built in set_format (folded statically) accept "
             "exactly the sentinel forms of the property ('!$', 'c$', 'C$', '*$' in columns 1-2 plus a valid label/continuation field in "
             "fixed form; '!$ ' after optional blanks in free form) and reject '!$omp'-style directives; group 1 is the 2-character "
